@@ -5,7 +5,7 @@ What is mirrored, statement by statement:
 
 * `lock_tty_wrapper`:  `with _tty_lock, _tty_lock: return func(*args, **kwargs)`
   = `LOAD_GLOBAL _tty_lock; __enter__; LOAD_GLOBAL _tty_lock; __enter__; func(); __exit__; __exit__`
-  (program counter `Pc`: `ld1 aq1 ld2 aq2 | csW csR csD | rl2 rl1`; the two `__exit__` calls
+  (program counter `Pc`: `ld1 aq1 ld2 aq2 | cs | rl2 rl1`; the two `__exit__` calls
   release *the objects that were loaded*, not the current value of the global).
 * `_process_start_wrapper` (the `_tty_lock` part):
   `with _tty_lock:` (`ld`, `aq`) `if isinstance(_tty_lock, _rlock_type):` (`chk`, re-reads the
@@ -17,9 +17,16 @@ What is mirrored, statement by statement:
 Every process `p` has its own module global `_tty_lock` (`cur p`) and its own
 `threading.RLock` (`Lk.T p`); `Lk.M p` is the `multiprocessing.RLock` created by process `p`'s
 start wrapper. Threads are natural numbers (no bound), `proc t` is the process a thread runs
-in. Inside the synchronized function a thread may write one query to the (FIFO) terminal and
-read one reply (`csW → csR → csD`), or not query at all (`noq`), or call another synchronized
-function (`call`: re-entrant nesting, any depth). Starting a process from inside a
+in. Inside the body of a synchronized section (`cs`) a thread may call another synchronized function
+(`call`: re-entrant nesting, any depth — `get_terminal_name_version` → `query_terminal` →
+`write_tty` / `read_tty`), write a query to the (FIFO) terminal (`wr`, when it has no reply
+outstanding), read one part of a reply (`rd`; every reply arrives in `replyParts = 2` parts, e.g.
+everything up to the `CSI` of the DA1 reply, then the rest of the DA1 reply — the terminal delivers
+the parts one at a time, `respond`), or return (`adv`). COMPOUND SECTION: the activations that
+write the query and read the parts may be different nested calls, but the **outermost** activation
+only returns (releases the lock) when the thread has no reply part outstanding — that is the
+`with _tty_lock, _tty_lock:` around `query_terminal(…)` + `read_tty()` in
+`get_terminal_name_version` / `get_fg_bg_colors`, and `more=… endswith(b"c")` in `get_cell_size`. Starting a process from inside a
 synchronized call is excluded (documented as unsupported): `start` needs an idle thread.
 -/
 namespace TIV.C14
@@ -54,7 +61,7 @@ def LockSt.release (l : LockSt) (t : Nat) : Option LockSt :=
 
 /-- program counter inside `lock_tty_wrapper` (what the *next* step of the frame does) -/
 inductive Pc where
-  | ld1 | aq1 | ld2 | aq2 | csW | csR | csD | rl2 | rl1
+  | ld1 | aq1 | ld2 | aq2 | cs | rl2 | rl1
   deriving DecidableEq, Repr
 
 /-- one activation of `lock_tty_wrapper` -/
@@ -62,7 +69,6 @@ structure Frame where
   pc : Pc
   l1 : Lk   -- object loaded by the first `with` item (meaningful once `pc` is past `ld1`)
   l2 : Lk   -- object loaded by the second `with` item (meaningful once `pc` is past `ld2`)
-  q : Nat   -- the query this call wrote (meaningful at `csR`, `csD`)
   deriving DecidableEq, Repr
 
 /-- program counter inside `_process_start_wrapper` -/
@@ -83,21 +89,23 @@ structure State where
   up : Nat → Bool             -- the process is running
   lk : Lk → LockSt
   nextQ : Nat                 -- terminal: next query id
-  pend : List Nat             -- queries written, not yet answered
-  repl : List Nat             -- replies in the input queue, not yet read
-  log : List (Nat × Nat × Nat) -- (thread, query it wrote, reply it read)
+  outq : Nat → Option (Nat × Nat)  -- per thread: (its query, number of reply parts not yet read)
+  pend : List (Nat × Nat)     -- reply parts (query, part index) the terminal has not delivered yet
+  repl : List (Nat × Nat)     -- reply parts in the input queue, not yet read
+  log : List (Nat × Nat × (Nat × Nat)) -- (thread, query it wrote, reply part it read)
 
 /-- process 0 is the root; every process is imported with a fresh `threading.RLock` -/
 def init (proc : Nat → Nat) : State :=
   { proc := proc, thr := fun _ => .idle, cur := fun p => .T p, up := fun p => p == 0,
-    lk := fun _ => {}, nextQ := 0, pend := [], repl := [], log := [] }
+    lk := fun _ => {}, nextQ := 0, outq := fun _ => none, pend := [], repl := [], log := [] }
 
 inductive Act where
   | call                 -- call a synchronized function (from idle, or nested from inside one)
   | start (child : Nat)  -- call `Process.start()` on a process object (from idle)
-  | adv                  -- execute the next step of the innermost activation
-  | noq                  -- the synchronized function does not query (`csW → csD`)
-  | respond              -- the terminal answers the oldest pending query (thread id ignored)
+  | adv                  -- execute the next step of the innermost activation (in the body: return)
+  | wr                   -- write a query to the terminal (body; no reply outstanding)
+  | rd                   -- read the next reply part from the input queue (body; blocks when empty)
+  | respond              -- the terminal delivers the oldest undelivered reply part (thread id ignored)
   deriving DecidableEq, Repr
 
 def setThr (s : State) (t : Nat) (x : TState) : State :=
@@ -111,12 +119,20 @@ def Lk.isThreadLock : Lk → Bool
   | .T _ => true
   | .M _ => false
 
-def newFrame : Frame := { pc := .ld1, l1 := .T 0, l2 := .T 0, q := 0 }
+def newFrame : Frame := { pc := .ld1, l1 := .T 0, l2 := .T 0 }
 
 /-- may the function body call another synchronized function here? -/
 def Pc.inBody : Pc → Bool
-  | .csW | .csD => true
+  | .cs => true
   | _ => false
+
+/-- every reply arrives in two parts (head, tail) -/
+def replyParts : Nat := 2
+
+/-- the parts of the reply to query `q` of which `k` are still to come, oldest first -/
+def partsFrom (q : Nat) : Nat → List (Nat × Nat)
+  | 0 => []
+  | k + 1 => (q, replyParts - (k + 1)) :: partsFrom q k
 
 /-- one step of the innermost `lock_tty_wrapper` activation of thread `t` (process `p`) -/
 def stepFrame (s : State) (t p : Nat) (f : Frame) (rest : List Frame) : Option State :=
@@ -126,14 +142,11 @@ def stepFrame (s : State) (t p : Nat) (f : Frame) (rest : List Frame) : Option S
       setThr (setLk s f.l1 l) t (.sync { f with pc := .ld2 } rest)
   | .ld2 => some (setThr s t (.sync { f with pc := .aq2, l2 := s.cur p } rest))
   | .aq2 => (s.lk f.l2).acquire t |>.map fun l =>
-      setThr (setLk s f.l2 l) t (.sync { f with pc := .csW } rest)
-  | .csW => some (setThr { s with nextQ := s.nextQ + 1, pend := s.pend ++ [s.nextQ] } t
-      (.sync { f with pc := .csR, q := s.nextQ } rest))
-  | .csR => match s.repl with
-      | [] => none
-      | r :: rs => some (setThr { s with repl := rs, log := s.log ++ [(t, f.q, r)] } t
-          (.sync { f with pc := .csD } rest))
-  | .csD => some (setThr s t (.sync { f with pc := .rl2 } rest))
+      setThr (setLk s f.l2 l) t (.sync { f with pc := .cs } rest)
+  | .cs =>
+    -- return from the body; the outermost activation only when no reply part is outstanding
+    if rest.isEmpty && (s.outq t).isSome then none
+    else some (setThr s t (.sync { f with pc := .rl2 } rest))
   | .rl2 => (s.lk f.l2).release t |>.map fun l =>
       setThr (setLk s f.l2 l) t (.sync { f with pc := .rl1 } rest)
   | .rl1 => (s.lk f.l1).release t |>.map fun l =>
@@ -167,8 +180,23 @@ def step (s : State) (t : Nat) (a : Act) : Option State :=
       | .idle, .start c => some (setThr s t (.start .ld (.T 0) (.T 0) c))
       | .sync f rest, .call =>
           if f.pc.inBody then some (setThr s t (.sync newFrame (f :: rest))) else none
-      | .sync f rest, .noq =>
-          if f.pc = .csW then some (setThr s t (.sync { f with pc := .csD } rest)) else none
+      | .sync f _, .wr =>
+          if f.pc = .cs then
+            match s.outq t with
+            | some _ => none
+            | none => some { s with nextQ := s.nextQ + 1,
+                                    pend := s.pend ++ partsFrom s.nextQ replyParts,
+                                    outq := fun i => if i = t then some (s.nextQ, replyParts) else s.outq i }
+          else none
+      | .sync f _, .rd =>
+          if f.pc = .cs then
+            match s.outq t, s.repl with
+            | some (q, k), r :: rs =>
+                some { s with repl := rs, log := s.log ++ [(t, q, r)],
+                              outq := fun i => if i = t then (if k ≤ 1 then none else some (q, k - 1))
+                                               else s.outq i }
+            | _, _ => none
+          else none
       | .sync f rest, .adv => stepFrame s t (s.proc t) f rest
       | .start pc l pass c, .adv => stepStart s t (s.proc t) pc l pass c
       | _, _ => none
@@ -190,7 +218,7 @@ def runSched (s : State) : List (Nat × Act) → State × List Bool
 /-! ### observations -/
 
 def Pc.inCS : Pc → Bool
-  | .csW | .csR | .csD => true
+  | .cs => true
   | _ => false
 
 /-- the thread is executing the body of a synchronized function (possibly of an outer call) -/
